@@ -1,12 +1,12 @@
 SPECIFICATION LiveSpec
 CONSTANTS
   Threads = {1, 2, 3}
-  Prog <- ProgRz1
+  Prog <- ProgClr1
   HashOf <- HashId
   InitKeys <- Init1
   N0 = 2
   DCAP = 2
-  MaxNodes = 8
+  MaxNodes = 10
   MaxTabs = 2
   STRIDE = 1
   MAXRES = 100
